@@ -13,6 +13,11 @@ pub struct Multiclass {
     pub name: EcoString,
     pub name_to_template_arg: IndexMap<EcoString, TemplateArgumentId>,
     pub parent_list: Vec<MulticlassId>,
+    /// what the records defined in the body are called, relative to the name of the defm that
+    /// instantiates the multiclass: `def I` -> "I", `def ""` / `def NAME` -> "", `def NAME#"_x"`
+    /// -> "_x", an inner `defm X : M` -> "X" followed by the names of M (computed names are not
+    /// listed)
+    pub record_name_list: Vec<EcoString>,
 
     pub define_loc: FileRange,
     pub reference_locs: Vec<FileRange>,
@@ -24,6 +29,7 @@ impl Multiclass {
             name,
             name_to_template_arg: IndexMap::new(),
             parent_list: Vec::new(),
+            record_name_list: Vec::new(),
             define_loc,
             reference_locs: Vec::new(),
         }
@@ -43,5 +49,9 @@ impl Multiclass {
 
     pub fn add_parent(&mut self, parent_id: MulticlassId) {
         self.parent_list.push(parent_id);
+    }
+
+    pub fn add_record_name(&mut self, name: EcoString) {
+        self.record_name_list.push(name);
     }
 }
